@@ -263,4 +263,22 @@ Section TwoPass.
         intros E. apply (Hne Q). congruence.
       + destruct Hcode as [H|H]; [right; left; exact H|right; right; exact H].
   Qed.
+  (* everything at once (so that the statement depends on every hypothesis of the section) *)
+  Theorem two_pass_all :
+    every_prefix_valid e (sfs st) ws
+    /\ (forall k, get (sfs (fst r2)) k = new k)
+    /\ coherent_st (fst r2)
+    /\ (forall k, inb k (map ukey us1) = false -> lookup (scache (fst r2)) k = lookup (scache st) k)
+    /\ sfs (fst r2) = apply_writes e ws (sfs st)
+    /\ (forall pre w suf, ws = pre ++ w :: suf ->
+          In (fst w) (map ukey us1)
+          /\ (on_q e (fst w) = false ->
+                get (apply_writes e pre (sfs st)) (fst w) <> norm_at e (fst w) (snd w)
+                /\ (J (fst w) <> old (fst w) \/ new (fst w) <> J (fst w)))
+          /\ (snd w = J (fst w) \/ snd w = new (fst w) \/ (on_q e (fst w) = true /\ snd w = -2))).
+  Proof.
+    split; [exact two_pass_prefix_valid|]. split; [exact two_pass_final|].
+    split; [exact two_pass_coherent|]. split; [exact two_pass_cache_frame|].
+    split; [exact two_pass_apply|]. exact two_pass_writes.
+  Qed.
 End TwoPass.
